@@ -609,6 +609,10 @@ def getEnvTerm (s : PS) : PRes (PEnv × PS) := do
     consumed, so `pstn ≥ 1` and neither subtraction underflows (in the Rust it would wrap, not panic) -/
 def PS.jumpAdvance (s : PS) (k : Nat) : PS := ({ s with pos := k } : PS).advance
 
+/-- back to the token at `k`: `self.pos = k; self.curr_tkn = self.token_list[k].clone()` (the repair of D13b: re-reading
+    through `advance` turned a comment after the `_` into `Eol`) -/
+def PS.jumpTo (s : PS) (k : Nat) : PS := { s with pos := k, cur := s.toks.getD k default }
+
 /-- `get_spec_env` (parser.rs:380-414): `_ , X` -/
 def getSpecEnv (s : PS) : PRes (Option (List PItem) × PS) :=
   let start := s.cur.start
@@ -617,11 +621,11 @@ def getSpecEnv (s : PS) : PRes (Option (List PItem) × PS) :=
   if !ul then pure (none, s1)
   else
     let (cm, s2) := s1.expect .comma
-    if !cm then pure (none, s2.jumpAdvance (s2.pos - 2))
+    if !cm then pure (none, s2.jumpTo pstn)
     else do
       let (x, s3) ← getEnvElements false s2
       let (ul2, s4) := s3.expect .underline
-      if ul2 then pure (none, s4.jumpAdvance (pstn - 1))
+      if ul2 then pure (none, s4.jumpTo pstn)
       else do
         let p ← s4.prev
         let position : Pos := ⟨start, p.stop⟩
